@@ -164,7 +164,7 @@ def settle_ms(c):
     """how long the recording waits at the end for delayed sends (0: the chart has none)"""
     if not hasattr(c, "_settle"):
         d = c.max_delay()
-        c._settle = 0 if d == 0 else max(400, 12 * d)
+        c._settle = 0 if d == 0 else (max(400, 12 * d) if d < 100 else 3 * d)
     return c._settle
 
 
